@@ -2359,7 +2359,7 @@ theorem lookup_of_mem_nodup {β} (l : List (String × β)) (k : String) (b : β)
     obtain ⟨k0, b0⟩ := a
     simp only [List.map_cons, List.nodup_cons] at hnd
     rcases List.mem_cons.1 h with heq | hr
-    · cases heq; simp [List.lookup_cons]
+    · cases heq; simp
     · have hne : k ≠ k0 := fun e => hnd.1 (e ▸ List.mem_map.2 ⟨(k, b), hr, rfl⟩)
       have hb : (k == k0) = false := by simpa using hne
       simp only [List.lookup_cons, hb]
